@@ -206,6 +206,7 @@ class CFG:
         hierarchy: dict[str, str | None] | None = None,
         generic_exceptions: bool = True,
         handler_tokens: bool = True,
+        generic_scope: str = "all",
         const_true: Callable[[ast.expr], bool | None] | None = None,
     ) -> None:
         self.fn = fn
@@ -219,6 +220,11 @@ class CFG:
         # (KeyboardInterrupt, FailureGroup, SkipTest ...), so that those arms are reachable in the graph
         self.handler_tokens = handler_tokens
         self._handler_stack: list[list[str]] = []
+        # generic_scope="try_body": the generic "some Exception" token is only produced for statements whose innermost
+        # try-context is the body of a `try` that has handlers (faults the code anticipates); statements in handler
+        # bodies, else/finally blocks and outside any try raise only what they raise explicitly
+        self.generic_scope = generic_scope
+        self._ctx_stack: list[str] = []
         self.const_true = const_true
         self.entry = self._new("entry")
         self.exit = self._new("exit")
@@ -258,7 +264,13 @@ class CFG:
                     continue
                 if isinstance(n, (ast.Call, ast.Await)):
                     has_call = True
-                if self.generic_exceptions and GENERIC not in out:
+                if self.generic_exceptions and GENERIC not in out and (
+                    self.generic_scope == "all"
+                    or (
+                        next((c for c in reversed(self._ctx_stack) if c != "tryfinally"), "") == "try"
+                        and "handler" not in self._ctx_stack
+                    )
+                ):
                     out.append(GENERIC)
         if has_call and self.handler_tokens:
             for frame in self._handler_stack:
@@ -436,7 +448,9 @@ class CFG:
                     # inside the finally copy: falling off continues with `target`
                     kk = K(target, k.ret, k.brk, k.cont, k.exc)
                     saved = getattr(self, "_reraise", None)
+                    self._ctx_stack.append("finally")
                     start = self._block(s.finalbody, kk)
+                    self._ctx_stack.pop()
                     if saved is not None:
                         self._reraise = saved
                     self._edge(marker, start, "next")
@@ -463,7 +477,9 @@ class CFG:
                 names = dict(saved_names)
                 names[h.name] = self._reraise
                 self._reraise_names = names
+            self._ctx_stack.append("handler")
             body = self._block(h.body, kf)
+            self._ctx_stack.pop()
             if saved is None:
                 if hasattr(self, "_reraise"):
                     del self._reraise
@@ -493,7 +509,9 @@ class CFG:
                     self._edge(d, kf.exc(token), f"exc:{token}")
             return dispatch_memo[token]
 
+        self._ctx_stack.append("else")
         after_body = self._block(s.orelse, kf) if s.orelse else kf.nxt
+        self._ctx_stack.pop()
         kb = K(after_body, kf.ret, kf.brk, kf.cont, dispatch if s.handlers else kf.exc)
         frame = []
         for _h, classes, _e in handler_entries:
@@ -505,10 +523,12 @@ class CFG:
                 if sub is False and cs not in frame:
                     frame.append(cs)
         self._handler_stack.append(frame)
+        self._ctx_stack.append("try" if s.handlers else "tryfinally")
         try:
             return self._block(s.body, kb)
         finally:
             self._handler_stack.pop()
+            self._ctx_stack.pop()
 
     # ---------------------------------------------------------------- post-processing
     def _prune(self) -> None:
